@@ -9,6 +9,16 @@ E1 = "SMT-based symbolic execution of the compiled x86/AVX2/AVX-512 kernels lift
 TRUST = "trusted: z3, go/ssa (x/tools v0.29.0) and the executors (each sat is replayed natively; stubs/assumptions listed in the evidence)"
 
 claimed = {
+ "C03": ("E2", "§5.3", "parseNumber (through addNumber) on fully symbolic buffers against the RFC 8259 number DFA and the int64/uint64/float+flag typing rule with exact 128-bit integer values; the read side (Int/Uint/Float/FloatFlags, As*) on every 64-bit payload",
+          "buffers <= 10 (quick) / 24 (thorough) bytes fully symbolic, longer ones with a digit run in the middle; strconv.ParseInt/ParseUint/ParseFloat are contracts: correct rounding of ParseFloat is TRUSTED (Go standard library), the check covers which bytes are converted and how the result is typed and flagged; " + TRUST),
+ "C04": ("E1", "§5.4", "the string decoder's machine code (_parse_string_validate_only, _parse_string) lifted from the freshly built test binary: one decoder iteration from an arbitrary cursor = REF-STR step (inductive over length/alignment), whole runs of 2 (quick) / 3 (thorough) iterations, copy = validate lengths, loads/stores inside the caller-provided extents; quote/backslash carry across 64-byte blocks (A1/A2, both kernel families)",
+          "per-iteration windows of 44 symbolic bytes; runs <= 2/3 iterations; ill-formed surrogates are don't-cares; translator validation against native execution on every run; trusted: z3, llvm-objdump-14, the lifter"),
+ "C06": ("E1", "§5.6", "pairwise equivalence of the AVX2 and AVX-512 stage-1 kernels on the same symbolic 64-byte block and carry-in state (inductive over blocks), and of the two slice drivers for 0-2 blocks and tails (quick: 6 tail lengths, thorough: all 64), incl. ndjson mode, error-mask hand-over and early exit",
+          "one 64-byte block with arbitrary carry per subroutine; drivers <= 2 blocks + tail; rest of Parse is shared code; translator validation on every run; trusted: z3, llvm-objdump-14, the lifter"),
+ "C11": ("E2", "§5.11", "Deserialize(Serialize(tape)) on every well-formed tape within the bound (NOP runs, strings in either buffer, equal/prefix-related/hash-colliding strings by the solver's choice): result well-formed (strict NOP runs) and read back identically by every traversal API incl. number tags and float flags; Serializer and destination fresh or with arbitrary havoc'd leftovers; noasm build: Deserialize SSA identical",
+          "tapes <= 7/9 words general, <= 10/12 words string-heavy; CompressNone arms only: S2/zstd are third-party code outside reach (contract dec(enc(x)) = x, TRUSTED); flush constants and string table scaled (stated in evidence); " + TRUST),
+ "C19": ("E2", "§5.19", "Deserialize on framed blobs with symbolic tag bytes, value words, message bytes, version/size bytes and block types (consistent framing or one deviation: size off by one/word, odd value bytes, strings block, truncation at every byte), fresh or havoc'd Serializer/destination: no panic, no hang; every accepted result traversed and marshalled without panic and with progress",
+          "<= 3/4 tags, <= 2/3 value words, message <= 2 bytes, declared tape <= 6 words; block types 1/2 (S2/zstd payloads) are third-party decoders outside reach (assumed: error or fill, never panic); " + TRUST),
  "C02": ("E2", "§5.2", "reader side: every traversal API (Advance, AdvanceIter, AdvanceInto/PeekNextTag, ForEach, NextElementBytes, Root, Array, Object, typed accessors) "
           "exposes exactly the abstract document of every well-formed tape within the size bound (all shapes, NOP runs, symbolic payloads/tags/string bytes)",
           "tapes <= 8 (quick) / 10 (thorough) words, nesting <= 3, strings 1 byte; producer side (tape = refTape(document)) is covered by the stage-2 lemmas when built; " + TRUST),
